@@ -110,11 +110,21 @@ def signatures(fn):
             parents[id(c)] = n
     defs = {}
     first = {}
+    # position = pre-order rank in the function body, not the line number: statements inlined from a
+    # helper keep the helper's line numbers, and the order that matters is the order of execution
+    order = {}
+
+    def rank(n):
+        order[id(n)] = len(order)
+        for c in ast.iter_child_nodes(n):
+            rank(c)
+
+    rank(fn)
 
     def add(name, desc, node):
         if name in locals_:
             defs.setdefault(name, []).append(desc)
-            pos = (node.lineno, node.col_offset)
+            pos = (order.get(id(node), 0),)
             first[name] = min(first.get(name, pos), pos)
 
     def targets(t, value_text, node, kind, guards):
